@@ -314,6 +314,7 @@ fn observe(keys: &Keys, svc: &dyn EpochService, params: &Parameters, pm: &Protoc
     };
     let cs = slots(svc.protocol_multi_signer(), &cur);
     let ns = slots(svc.next_protocol_multi_signer(), &next);
+
     let text = match (&cur, &next) {
         (Some(c), Some(n)) => format!(
             "c={};n={};ns=[{}];t={},{};ck={};nk={};cs={};nsl={}",
